@@ -143,18 +143,16 @@ def commasOutside : Bool → Txt → Nat
     else if c == 44 && !q then 1 + commasOutside q cs
     else commasOutside q cs
 
-/-- `bufio.MaxScanTokenSize`: a `bufio.Scanner` with its default buffer gives up on a line of this many bytes or more -/
+/-- `bufio.MaxScanTokenSize`: the default limit of a `bufio.Scanner` — the line length from which on `copy` used to lose
+the rest of the CSV (KF-C19-7, fixed: the scanner's buffer now grows without limit and `scanner.Err()` is returned) -/
 def scanLimit : Nat := 65536
 
-/-- `copy`: with the trim option the lines as they are (`io.Copy`); otherwise every line read by a `bufio.Scanner` and
-padded with the missing commas — `none` = `bytes.Repeat` panics on a negative count. The scanner keeps its default
-buffer: at a line of `scanLimit` bytes or more `Scan` returns false (`ErrTooLong`), the loop ends and `copy` returns nil —
-that line and every line after it are missing from the CSV, without an error. -/
+/-- `copy`: with the trim option the lines as they are (`io.Copy`); otherwise every line — of any length — read by a
+`bufio.Scanner` and padded with the missing commas; `none` = `bytes.Repeat` panics on a negative count. -/
 def copyLines (o : Opts) (maxComma : Nat) : List Txt → Option (List Txt)
   | [] => some []
   | l :: ls =>
     if o.trim then (copyLines o maxComma ls).map (l :: ·)
-    else if l.length ≥ scanLimit then some []
     else if commasOutside false l > maxComma then none
     else (copyLines o maxComma ls).map ((l ++ List.replicate (maxComma - commasOutside false l) 44) :: ·)
 
